@@ -10,46 +10,75 @@
    c12_opacity_*_legacy_refuted lemmas in Examples.v were true of the code before the repairs
    1548caf / 29cb17a and are kept about the [legacy] model.  The theorems below are about the
    code as it is now and have no bound on template size, number of templates, include depth or
-   context. *)
+   context.
+
+   Every theorem is about an instance constructed with an ARBITRARY custom filter table
+   [F : FTable] (Ribosome(filters=F): names, possibly those of built-in filters, bound to callables
+   of the family Impl.cfilter) whose names are identifiers ([ftable_ok]); [F := []] is the default
+   Ribosome().  [render_impl], [render_spec], [is_filter], [apply_filter] take F implicitly. *)
 From Coq Require Import ZArith List Bool.
 From Verif Require Import C12.Impl C12.Spec C12.Model C12.Proofs.
 Import ListNotations.
 
 (* Rendering = the single left-to-right expansion with every bound value, loop item, default and
    included text emitted verbatim: for every well-formed template of the documented grammar
-   (text, plain/optional/defaulted/filtered variables, {{.}}, if/else, each with
+   (text, plain/optional/defaulted/filtered variables - all seven built-in filters -, {{.}}, if/else, each with
    item/index/first/last/dict keys, includes of any depth) and EVERY context whose strings do
    not contain the two shielding sentinels U+E000/U+E001 and whose dict-item keys are
    identifiers ([ctx_ok]; braces and any other code point are allowed), whenever the
    expansion is defined (no len() of an int/bool, no include cycle).  [well_formed] also asks
    the template text and defaults to be sentinel-free. *)
 Theorem c12_render_eq :
+  forall (F : FTable), ftable_ok F = true ->
   forall T c t txt miss,
     ctx_ok c = true ->
     forallb (fun nt => well_formed (snd nt)) T = true -> well_formed t = true ->
     render_spec false T c t = SOk txt miss ->
     exists w, render_impl false (print_templates T) c (print t) = Ok txt w.
-Proof. exact render_eq_proof. Qed.
+Proof. exact @render_eq_proof. Qed.
 Print Assumptions c12_render_eq.
+
+(* FILTERED VARIABLES SEE THE RAW VALUE.  For each of the seven built-in filters (upper, lower,
+   trim, title, length, json, repr) and every custom filter of the instance's table (which may
+   look at the braces of the value, permute it, return template syntax, or replace a built-in
+   filter of the same name), {{x|f}} renders exactly f applied to the bound value ITSELF -
+   braces and all other template syntax in the value included: the filter is not applied to a
+   shielded or otherwise rewritten copy, and its result is emitted as data.  Any registered
+   templates, both modes (in strict mode the registered templates' own plain variables are
+   bound, as in c12_strict_loop_vars), every admissible context.  [apply_filter f v = inl r]
+   excludes only len() of an int / bool / None / float. *)
+Theorem c12_filter_applied_to_raw_value :
+  forall (F : FTable), ftable_ok F = true ->
+  forall strict T c x f v r,
+    ctx_ok c = true ->
+    forallb (fun nt => well_formed (snd nt)) T = true ->
+    (strict = true -> Forall (fun nt => out_bound c (snd nt)) T) ->
+    word x = true -> is_filter f = true ->
+    lookup c x = Some v -> apply_filter f v = inl r ->
+    exists w, render_impl strict (print_templates T) c (print [NLeaf (LPipe x f)]) = Ok r w.
+Proof. exact @filter_raw_value_proof. Qed.
+Print Assumptions c12_filter_applied_to_raw_value.
 
 (* Every plain variable written in the template outside {{#each}} bodies (if-branches
    included) that the context does not bind is reported: a "Missing required variable" warning,
    or an error in strict mode.  Any context, any registered templates. *)
 Theorem c12_missing_plain_var_warned :
+  forall (F : FTable), ftable_ok F = true ->
   forall T c t x,
     well_formed t = true -> In x (plain_vars_out t) -> lookup c x = None ->
     (forall txt w, render_impl false T c (print t) = Ok txt w -> In (WMissing x) w) /\
     (exists y, render_impl true T c (print t) = Err (EMissing y) /\ lookup c y = None).
-Proof. exact missing_plain_var_warned_proof. Qed.
+Proof. exact @missing_plain_var_warned_proof. Qed.
 Print Assumptions c12_missing_plain_var_warned.
 
 (* An include of a template that is not registered renders the explicit marker, in both
    modes, for every context (delimiter-free or not). *)
 Theorem c12_unknown_include_marker :
+  forall (F : FTable), ftable_ok F = true ->
   forall strict T c n,
     word n = true -> lookup T n = None ->
     render_impl strict (print_templates T) c (print [NLeaf (LInc n)]) = Ok (unknown_marker n) [].
-Proof. exact unknown_include_marker_proof. Qed.
+Proof. exact @unknown_include_marker_proof. Qed.
 Print Assumptions c12_unknown_include_marker.
 
 (* Strict mode accepts loop variables (29cb17a): when every plain variable written OUTSIDE
@@ -58,30 +87,33 @@ Print Assumptions c12_unknown_include_marker.
    dict keys inside loop bodies are bound per item and any other plain variable of a loop body
    must be bound for the expansion to be defined. *)
 Theorem c12_strict_loop_vars :
+  forall (F : FTable), ftable_ok F = true ->
   forall T c t txt miss,
     ctx_ok c = true ->
     forallb (fun nt => well_formed (snd nt)) T = true -> well_formed t = true ->
     Forall (fun nt => out_bound c (snd nt)) T -> out_bound c t ->
     render_spec true T c t = SOk txt miss ->
     exists w, render_impl true (print_templates T) c (print t) = Ok txt w.
-Proof. exact strict_loop_vars_proof. Qed.
+Proof. exact @strict_loop_vars_proof. Qed.
 Print Assumptions c12_strict_loop_vars.
 
 (* ... and a plain variable that is still there after the blocks are expanded ([blocks c t]:
    the chosen if-branches and one copy of each loop body per item, loop variables replaced)
    and is unbound is an error in strict mode, for any registered templates. *)
 Theorem c12_strict_unbound_is_error :
+  forall (F : FTable), ftable_ok F = true ->
   forall Ts c t x,
     ctx_ok c = true -> well_formed t = true ->
     In (LVar x) (blocks c t) -> lookup c x = None ->
     exists e, render_impl true Ts c (print t) = Err e.
-Proof. exact strict_unbound_error_proof. Qed.
+Proof. exact @strict_unbound_error_proof. Qed.
 Print Assumptions c12_strict_unbound_is_error.
 
 (* OPACITY.  In the taint model (Model.v: the same scanners run over code points that carry
    their origin: template / plain / optional / filtered / default / loop item / include) no
    scanner match of any pass - conditionals, loops, the loop-body str.replace, includes, the
-   filtered, defaulted, optional and simple variable passes, nested includes to any depth -
+   filtered (built-in and custom filters), defaulted, optional and simple variable passes, nested
+   includes to any depth -
    ever covers a code point whose origin is not the template: the log of (origin, pass)
    events is empty.  For EVERY well-formed template and registered templates, both modes, and
    EVERY admissible context (strings free of the sentinels U+E000/U+E001, identifier dict
@@ -89,11 +121,12 @@ Print Assumptions c12_strict_unbound_is_error.
    outcome (rendering, strict-mode error, filter type error).  Together with c12_render_eq:
    the output is the one left-to-right expansion with the values verbatim. *)
 Theorem c12_opacity :
+  forall (F : FTable), ftable_ok F = true ->
   forall strict T c t,
     ctx_ok c = true ->
     forallb (fun nt => well_formed (snd nt)) T = true -> well_formed t = true ->
     snd (Model.render_taint strict (print_templates T) c (print t)) = [].
-Proof. exact opacity_proof. Qed.
+Proof. exact @opacity_proof. Qed.
 Print Assumptions c12_opacity.
 
 (* HISTORIES.  On one Ribosome instance every operation of a history - registrations
@@ -102,16 +135,16 @@ Print Assumptions c12_opacity.
    [result_on] of (the registry AS IT IS AT THAT MOMENT, strict, the operation): for a render,
    render_impl on the current registry.  Whatever an earlier call did - rendered, raised inside
    an include, bumped the counters, carried an mRNA whose own .name equals a registered name -
-   leaves no trace. *)
+   leaves no trace.  (The filter table is fixed at construction; translate() only reads it.) *)
 Theorem c12_render_uses_current_registry :
-  forall T strict n os,
+  forall (F : FTable) T strict n os,
     Model.run_ops (Model.mkInstance T strict n) os = replay strict T os.
-Proof. exact current_registry_proof. Qed.
+Proof. exact @current_registry_proof. Qed.
 Print Assumptions c12_render_uses_current_registry.
 
 (* ... where a registration is dict assignment on the registry *)
 Theorem c12_registration_is_assignment :
   forall T n t m,
     lookup (Model.reg_set T n t) m = if str_eqb n m then Some t else lookup T m.
-Proof. exact lookup_reg_set. Qed.
+Proof. exact (@lookup_reg_set nil eq_refl). Qed.
 Print Assumptions c12_registration_is_assignment.
